@@ -13,7 +13,7 @@ import (
 // bytes consumed.
 func (c *Ctx) ruleDecodeSiblings(rule string) {
 	R, P := c.R, c.P
-	R.Rule(rule, "in each tag loop of the fast-path decoder (eager, lazy, single lazy field): the field number is converted from the tag only on the false edge of both `n < MinValidNumber` and `n > MaxValidNumber` (whose branch returns an error); an end-group tag must match the group being decoded (`num != groupTag` returns an error, then groupTag is cleared); the success return is reached only with groupTag == 0 established after the loop; out.n is the number of bytes consumed", 8)
+	R.Rule(rule, "in each tag loop of the fast-path decoder (eager, lazy, single lazy field): the field number is converted from the tag only on the false edge of both `n < MinValidNumber` and `n > MaxValidNumber` (whose branch returns an error); an end-group tag must match the group being decoded (`num != groupTag` returns an error, then groupTag is cleared); the success return is reached only with groupTag == 0 established after the loop; out.n is the number of bytes consumed; the error of a field coder ends decoding only if it is not errUnknown (wrong wire type: the record is skipped as unknown)", 8)
 	refersTo := func(info *types.Info, e ast.Node, name string) bool {
 		found := false
 		walk(e, func(n ast.Node) bool {
@@ -76,6 +76,59 @@ func (c *Ctx) ruleDecodeSiblings(rule string) {
 				return ok && !val && be.Op == token.GTR && objOf(info, be.X) == arg && refersTo(info, be.Y, "MaxValidNumber")
 			})
 			R.Check(lo && hi, rule, e.key+" number range #"+itoa(i+1), P.Pos(cv), "number used only within [MinValidNumber, MaxValidNumber]", "the tag's field number is used without having been rejected when below MinValidNumber or above MaxValidNumber: invalid numbers (0, or beyond 2^29-1) would index the coder tables")
+		}
+		// (e) a field coder answering errUnknown (wrong wire type for this
+		// field) does not end decoding: the record is skipped as an unknown
+		// field. Every return of the coder's error is therefore on the true
+		// edge of `err != errUnknown`.
+		{
+			var errObj types.Object
+			walk(fi.Decl.Body, func(n ast.Node) bool {
+				as, ok := n.(*ast.AssignStmt)
+				if !ok || len(as.Rhs) != 1 || len(as.Lhs) != 2 {
+					return true
+				}
+				call, ok := as.Rhs[0].(*ast.CallExpr)
+				if !ok {
+					return true
+				}
+				if se, ok := call.Fun.(*ast.SelectorExpr); ok && se.Sel.Name == "unmarshal" && strings.HasSuffix(exprStr(se.X), ".funcs") {
+					if id, ok := as.Lhs[1].(*ast.Ident); ok {
+						errObj = info.Defs[id]
+						if errObj == nil {
+							errObj = info.Uses[id]
+						}
+					}
+				}
+				return true
+			})
+			if errObj == nil {
+				R.Unk(rule, e.key+" errUnknown", P.Pos(fi.Decl), "call of the field's unmarshal function not found")
+			} else {
+				k := 0
+				skip := containsCall(info, fi.Decl.Body, "encoding/protowire.ConsumeFieldValue") != nil
+				walk(fi.Decl.Body, func(n ast.Node) bool {
+					rs, ok := n.(*ast.ReturnStmt)
+					if !ok || len(rs.Results) == 0 {
+						return true
+					}
+					id, ok := unparen(rs.Results[len(rs.Results)-1]).(*ast.Ident)
+					if !ok || info.Uses[id] != errObj {
+						return true
+					}
+					k++
+					good := g.DominatedByCond(rs, func(core ast.Expr, val bool) bool {
+						be, ok := unparen(core).(*ast.BinaryExpr)
+						if !ok || objOf(info, be.X) != errObj || !refersTo(info, be.Y, "errUnknown") {
+							return false
+						}
+						return (be.Op == token.NEQ && val) || (be.Op == token.EQL && !val)
+					})
+					R.Check(good, rule, e.key+" errUnknown return#"+itoa(k), P.Pos(rs), "the coder's error ends decoding only if it is not errUnknown", "the field coder's error is returned without excluding errUnknown: a record with this field's number but another wire type ends decoding (the lazily deferred decode stops short, or Unmarshal fails) instead of being kept as an unknown field")
+					return true
+				})
+				R.Check(skip && k > 0, rule, e.key+" errUnknown skip", P.Pos(fi.Decl), "unknown records are skipped with ConsumeFieldValue", "no skip of an unknown record (protowire.ConsumeFieldValue) in the loop, or the coder's error is never returned")
+			}
 		}
 		if !e.groups {
 			continue
